@@ -597,6 +597,7 @@ pub fn one_run(ctx: &Ctx, out: &mut Outcome, run_seed: u64) {
         liveness: false,
         flood: false,
         max_len: 100_000,
+        overload: false,
     };
     let mut mons: Vec<Box<dyn Monitor>> = vec![Box::new(ReleaseOracle::new()), Box::new(CoverageMonitor::new()), Box::new(SizeMonitor { prop: "C13" })];
     let before = out.get("released_messages");
